@@ -78,7 +78,7 @@ def Table.search (t : Table) (name value : Bytes) : Option (Nat × Bool) :=
 structure EncState where
   table : Table := {}
   changes : List Nat := []
-deriving Repr
+deriving Repr, DecidableEq
 
 /-- `sticky = false` is the unfixed setter (a no-op assignment overwrites `resized` with False) -/
 def EncState.setSize (sticky : Bool) (e : EncState) (v : Nat) : Out EncState := do
